@@ -13,15 +13,25 @@ BASE = 'mitxgraders/baseclasses.py'
 FILES = [BASE]
 
 EXPLANATION = (
-    "Rules on ItemGrader.check (the only implementation of check in the ItemGrader family): (D1) the loop over the "
-    "answers and the nested loop over each answer's expect tuple run over the complete sequences, have no "
-    "break/continue/return, and append exactly one check_response result per (answer, entry) unconditionally; "
-    "(D2) the verdict is max-by-len(msg) over the results whose grade_decimal equals the max of grade_decimal over "
-    "all results, and that winner is what is returned; (D3) wrong_msg replaces the winner's message exactly under "
-    "`msg == '' and best_score == 0`; (D4) each answer is copied before its expect entry is narrowed, so no store "
-    "in check reaches the configured answers.")
-NOT_DECIDED = ("what each check_response returns (subgrader semantics, comparers that raise); that grade_decimal values "
-               "are comparable numbers; canonicalisation of the alternatives by schema_answers (C20).")
+    'Structural rules on ItemGrader.check after inlining of newly extracted helpers (one helper that hosts the '
+    'check_response loop is followed through its call): (D1) the two iteration constructs (nested for loops or '
+    "a two-generator comprehension) range over the complete answers / answer['expect'], have no "
+    'break/continue/return resp. no filter, and each (fresh copy of the answer with expect narrowed to the '
+    'entry, student input, **kwargs) yields exactly one collected result; answers default to '
+    "config['answers']; (D2) seen through temporaries, tuple assignments and key functions given as lambda / "
+    'nested def / method: returned value = max by len(msg) over the candidates, candidates = collected results '
+    'whose grade_decimal equals best, best = max of grade_decimal over ALL collected results, selection after '
+    'the collection; (D3) decision paths of the statements after the selection, evaluated over the complete '
+    "domain (winner's message empty / non-empty) x (order type of the best grade in [0,1] against every "
+    'constant it is compared with): the wrong_msg store is executed exactly for (empty, 0) and every path '
+    'returns the winner; (D4) alias/mutation facts (sa.effects): no store reaches the configured or passed '
+    'answers; the narrowed object is a fresh copy. '
+)
+NOT_DECIDED = (
+    'what each check_response returns (subgrader semantics, comparers that raise); that grade_decimal values '
+    'are comparable numbers; canonicalisation of the alternatives by schema_answers (C20); shapes of check '
+    'outside the recognised iteration / selection forms (analysis-error). '
+)
 ASSUMPTIONS = ["subclasses of ItemGrader do not override check (verified: D1 reports any override as undecided)"]
 
 IG_CHECK = 'mitxgraders.baseclasses.ItemGrader.check'
@@ -782,5 +792,9 @@ BENIGN = [
            "        best_score, best = self._pick_best_result(results)\n        if best['msg'] == \"\" and best_score == 0:\n            best['msg'] = self.config[\"wrong_msg\"]\n        return best\n\n    @staticmethod\n    def _pick_best_result(results):\n        def msg_length(result):\n            return len(result['msg'])\n        top = max(result['grade_decimal'] for result in results)\n        tied = [result for result in results if result['grade_decimal'] == top]\n        return top, max(tied, key=msg_length)\n"),
     Benign('loop-helper-extracted', BASE, "        results = []\n        for answer in answers:\n            # Iterate through each entry in the expect tuple\n            answercopy = answer.copy()\n            for entry in answer['expect']:\n                answercopy['expect'] = entry\n" + _LOOP,
            "        def check_all(alternatives):\n            collected = []\n            for answer in alternatives:\n                single = answer.copy()\n                for entry in answer['expect']:\n                    single['expect'] = entry\n                    collected.append(self.check_response(single, student_input, **kwargs))\n            return collected\n        results = check_all(answers)\n"),
+    Benign('wrong-msg-early-return', BASE, "        if best_result_with_longest_msg['msg'] == \"\" and best_score == 0:\n            best_result_with_longest_msg['msg'] = self.config[\"wrong_msg\"]\n\n        return best_result_with_longest_msg\n",
+           "        if not best_result_with_longest_msg['msg'] == \"\":\n            return best_result_with_longest_msg\n        if best_result_with_longest_msg['grade_decimal'] <= 0:\n            best_result_with_longest_msg['msg'] = self.config[\"wrong_msg\"]\n        return best_result_with_longest_msg\n"),
+    Benign('results-comprehension', BASE, "        results = []\n        for answer in answers:\n            # Iterate through each entry in the expect tuple\n            answercopy = answer.copy()\n            for entry in answer['expect']:\n                answercopy['expect'] = entry\n" + _LOOP,
+           "        results = [self.check_response(dict(answer, expect=entry), student_input, **kwargs)\n                   for answer in answers for entry in answer['expect']]\n"),
     Benign('log-in-loop', BASE, _LOOP, _LOOP + "                self.log('checked one alternative')\n"),
 ]
